@@ -560,6 +560,25 @@ func genTuple(s pbt.Src, thorough bool) TupleCase {
 		max = 32
 	}
 	big := s.Intn(14) == 0
+	if !big && s.Intn(12) == 0 {
+		// many arguments (around the width of a machine word and beyond): a first argument of a few values and 62..129
+		// further ones, most of which hold all of them, so that the intersection is decided by the few that do not
+		n := pbt.Pick(s, 62, 63, 64, 65, 66, 127, 128, 129)
+		first := pbt.Seq(s, 1, 6, func(s pbt.Src) int { return lo + s.Intn(alpha) })
+		c.Args = [][]int{first}
+		odd := s.Intn(n) // the argument that lacks the first value of the first argument (often the last ones)
+		if s.Intn(2) == 0 {
+			odd = n - 1 - s.Intn(3)
+		}
+		for i := 0; i < n; i++ {
+			a := append([]int{}, first...)
+			if i == odd {
+				a = a[1:]
+			}
+			c.Args = append(c.Args, a)
+		}
+		return c
+	}
 	c.Args = pbt.Seq(s, 1, 5, func(s pbt.Src) []int {
 		if big && s.Intn(3) != 0 {
 			return bigCodes(s, 7)
@@ -1418,7 +1437,7 @@ func TestProp(t *testing.T) {
 				"in first-occurrence order equal those of L (accepts both 'keep duplicates' and 'de-duplicate by value', nothing else loses/adds/reorders a value). " +
 				"Enumerated (int; quick): k=1 all slices len<=6 over 4 values, k=2 len<=(6,4) over 3 values, k=3 len<=(4,3,3) over 3 values, times 5 key functions; string/float64 use " +
 				"len<=5 / (4,3) / (3,2,2); thorough: int k=1 len<=8, k=2 len<=(6,4) over 4 values, k=3 len<=(5,4,4) over 3 values, string/float64 the quick int boxes. " +
-				"Random: 1..5 slices of length up to 16 (32) over 2..11 values incl. negative codes. Non-trivial = the first argument repeats a value, or (k>=3) a value of the first " +
+				"Random: 1..5 slices of length up to 16 (32) over 2..11 values incl. negative codes; one case in twelve has 63..130 arguments, all but one of which hold every value of the first. Non-trivial = the first argument repeats a value, or (k>=3) a value of the first " +
 				"argument occurs in some but not all other arguments, or an argument is empty. Distinct = enumerated cases (injective) + hash-distinct random cases outside the boxes.",
 			Enum: enumTuple, Gen: genTuple, Prop: tupleProp, OutOfEnum: tupleOutOfEnum,
 			RapidQuick: 1500, RapidThorough: 20000,
